@@ -260,6 +260,10 @@ METAS = [
     ({}, {'symsize': 3, 'symthick': 2}),
     # '#' starts a comment only at the beginning of a line: inside values it is an ordinary character
     ({'label': 'src #3'}, {'color': '#ff8800'}),
+    # zero and False are values like any other
+    ({}, {'linewidth': 0}),
+    ({}, {'symsize': 0, 'symthick': 0}),
+    ({'label': 'l0'}, {'usetex': False, 'fontsize': 0}),
 ]
 
 
@@ -396,6 +400,34 @@ def _coord_text(lon, lat, notation):
     raise ValueError(notation)
 
 
+def _sexa(v_as, per=1):
+    """(sign, whole, minutes, seconds) of an angle given in integer arcseconds (per=15: hours, minutes, seconds of time)."""
+    sign = '-' if v_as < 0 else ''
+    n = abs(v_as)
+    assert n % per == 0
+    n //= per
+    return sign, n // 3600, (n // 60) % 60, n % 60
+
+
+def _coord_text_as(lon_as, lat_as, notation):
+    """(text_lon, text_lat, expected_lon_deg, expected_lat_deg) for whole-arcsecond positions."""
+    lon, lat = lon_as / 3600.0, lat_as / 3600.0
+    if notation == 'deg':
+        return f'{lon!r}deg', f'{lat!r}deg', lon, lat
+    if notation == 'rad':
+        a, b = math.radians(lon), math.radians(lat)
+        return f'{a!r}rad', f'{b!r}rad', math.degrees(a), math.degrees(b)
+    _, h, hm, hs = _sexa(lon_as, 15)
+    sg, d, dm, ds = _sexa(lat_as)
+    if notation == 'sexagesimal':      # hh:mm:ss.s and (CASA) dd.mm.ss.s
+        return f'{h:02d}:{hm:02d}:{hs:02d}.0', f'{sg or "+"}{d:02d}.{dm:02d}.{ds:02d}.0', lon, lat
+    if notation == 'hms':
+        return f'{h:d}h{hm:02d}m{hs:02d}.0s', f'{sg}{d:d}d{dm:02d}m{ds:02d}.0s', lon, lat
+    if notation == 'dms_colon':        # unsigned-zero padding as CARTA writes it: -000.30.00.000
+        return f'{h:02d}:{hm:02d}:{hs:02d}.000', f'{sg or "+"}{d:03d}.{dm:02d}.{ds:02d}.000', lon, lat
+    raise ValueError(notation)
+
+
 def read_lines():
     """(name, text, expected list or 'ERROR')."""
     out = []
@@ -418,6 +450,16 @@ def read_lines():
                         [{**base, 'shape': 'rectangle', 'coords': [(elon, elat)], 'sizes': [3 * r * f, r * f], 'angle': 0.0}]))
             out.append((f'annulus/{cn}/{un}', f'{hdr}global coord=J2000\nannulus[[{a}, {b}], [{r!r}{un}, {2 * r!r}{un}]]\n',
                         [{**base, 'shape': 'circleannulus', 'coords': [(elon, elat)], 'sizes': [r * f, 2 * r * f], 'angle': None}]))
+    # positions: every notation x longitudes x latitudes on both sides of zero, incl. |lat| < 1 deg (the sign then sits on a
+    # zero degree field) -- all values whole arcseconds, so every notation writes them exactly
+    for lon_as in (540900, 450, 1294200):
+        for lat_as in (73800, -73800, -1800, 36, -36, 0, 322200, -3599):
+            for cn in ('deg', 'rad', 'sexagesimal', 'hms', 'dms_colon'):
+                a, b, elon, elat = _coord_text_as(lon_as, lat_as, cn)
+                for coord, fr in (('J2000', 'fk5'), ('ICRS', 'icrs')):
+                    out.append((f'pos/{cn}/{lon_as}/{lat_as}/{coord}', f'{hdr}circle[[{a}, {b}], 30.0arcsec], coord={coord}\n',
+                                [{'kind': 'sky', 'frame': fr, 'include': True, 'shape': 'circle', 'coords': [(elon, elat)],
+                                  'sizes': [30.0 / 3600], 'angle': None}]))
     base = {'kind': 'sky', 'frame': 'fk5', 'include': True}
     # box given by two corners
     out.append(('box/corners', f'{hdr}box[[150.0deg, 20.0deg], [150.5deg, 21.0deg]], coord=J2000\n',
